@@ -87,7 +87,15 @@ func newStack(t stackType, fifo bool, c ...int) *stack {
 	if len(c) > 0 {
 		if c[0] > 0 {
 			cfg.cap = c[0] + 1 // 1 for cfg slice offset
-			st = make(stack, 0, cfg.cap)
+
+			// the capacity is a limit, not a reservation: do
+			// not try to preallocate absurdly large (or, after
+			// overflow, negative) numbers of slices.
+			prealloc := cfg.cap
+			if prealloc < 0 || prealloc > 1024 {
+				prealloc = 1024
+			}
+			st = make(stack, 0, prealloc)
 		}
 	} else {
 		st = make(stack, 0)
